@@ -3,6 +3,7 @@ module verif
 go 1.26.8
 
 require (
+	github.com/hashicorp/raft v1.3.11
 	github.com/influxdata/influxdb v0.0.0
 	github.com/influxdata/influxql v1.2.0
 )
@@ -25,7 +26,6 @@ require (
 	github.com/hashicorp/go-immutable-radix v1.0.0 // indirect
 	github.com/hashicorp/go-msgpack v0.5.5 // indirect
 	github.com/hashicorp/golang-lru v0.5.1 // indirect
-	github.com/hashicorp/raft v1.3.11 // indirect
 	github.com/hashicorp/raft-boltdb/v2 v2.2.2 // indirect
 	github.com/influxdata/flux v0.65.1 // indirect
 	github.com/influxdata/roaring v0.4.13-0.20180809181101-fc520f41fab6 // indirect
